@@ -14,5 +14,7 @@ INVARIANTS
   InvFormWellFormed
   InvFormSmall
   InvFormRoutes
+  InvNearMisses
+  InvBrackets
 POSTCONDITION Emit
 CHECK_DEADLOCK FALSE
